@@ -421,6 +421,13 @@ def run(rep, tier):
         numvalue.clause(get_facts('K1'), rep, tier)
     except AnalysisBroken as ex:
         rep.broken.append(str(ex))
+    # the shape rules on the number parser proper (not on the big-decimal fallback, which the evaluation takes by
+    # contract) are decided together with the evaluation of parseNumber on the current source
+    NUMFN = ('Parser::parseNumber', 'Parser::parseFloatingFast', 'Parser::parseFloatEiselLemire64', 'ParseFloatingNormalFast', 'AtofEiselLemire64', 'simd_str2int', 'str2int')
+    for r_ in ('E5.fast-guard', 'E5.int-boundary', 'E2.trunc-set', 'E2.trunc-monotone', 'E2.nonzero-mantissa', 'E5.ambiguity-window', 'E3.exponent-field', 'E2.infinity-screen', 'E3.table-index'):
+        rep.corroborate(r_, 'E5.number-value', only=lambda v: any(x in (v.get('function') or '') for x in NUMFN))
+    for pre_ in ('C04.a:', 'C04.b:', 'C04.c:', 'C04.d:', 'C04.e:', 'C04.f:', 'C04.g:', 'C04.i:', 'C04.j:'):
+        rep.corroborate_floor(pre_, 'E5.number-value')
     rep.trust('clang 14 front end and constant evaluator', 'Python big integers / fractions', 'Clinger exact fast-path conditions',
               'simd_str2int contract: the digit count it stores never exceeds the requested count')
     rep.assumptions += [
